@@ -29,6 +29,7 @@ package parser
 // (they share only the source reader).  Assumed of the driver, not proved.
 //@ func yyParse
 //@   skip goyacc driver
+//@   assumes leaves-every-mutex-as-it-found-it: lockstate() == old(lockstate())
 //@   assumes only-its-own-error-slot: forall p: p != yylex.(*lexer) ==> heapfield("parser.lexer.err")[p] == old(heapfield("parser.lexer.err"))[p]
 //@ func yyNewParser
 //@   skip goyacc driver
@@ -60,7 +61,16 @@ package parser
 
 // Error is called by the generated parser after at least one Lex, which has
 // stored a position; that is a fact about the driver, not about this code.
+// No method returns holding one of the two mutexes (a mutex left locked
+// blocks the next error report or read for ever), none locks a mutex it
+// already holds, none unlocks one it does not hold.  (One thread of control;
+// contention between the goroutines is not modelled.)
+//@ every (*heredoc).*
+//@   requires[C01] !locked(h.mu)
+//@   ensures[C01] mutex-released: lockstate() == old(lockstate())
 //@ every (*lexer).*
+//@   requires[C01] !locked(l.mu) && !locked(l.heredoc.mu)
+//@   ensures[C01] mutex-released: !locked(l.mu) && !locked(l.heredoc.mu)
 //@   ensures[C10] keeps-read-error: old(l.err) != nil && !(old(l.err) is Error) ==> l.err == old(l.err)
 
 // ---- syntax errors (C03) ----
@@ -412,6 +422,8 @@ package parser
 //@   requires yylex is *lexer && yylex.(*lexer) != nil
 //@   requires yypt >= $K && yypt + 1 <= len(yyS)
 //@   requires yyVAL == $1
+//@   requires[C01] !locked(yylex.(*lexer).mu) && !locked(yylex.(*lexer).heredoc.mu)
+//@   ensures[C01] mutex-released: !locked(yylex.(*lexer).mu) && !locked(yylex.(*lexer).heredoc.mu)
 //@   ensures[C10] keeps-read-error: old(yylex.(*lexer).err) != nil && !(old(yylex.(*lexer).err) is Error) ==> yylex.(*lexer).err == old(yylex.(*lexer).err)
 
 // A function body is built before its name is known: the FuncDef node of a
